@@ -172,7 +172,7 @@ def wrapper_repeat(rnd, kind):
 def run(ctx):
     quick = ctx.tier == "quick"
     cat = BR.catalogue(ctx.tier)
-    names = ["A", "C2", "E"] if quick else list(cat)
+    names = ["A", "C2", "E", "A3"] if quick else list(cat)
     rnd = random.Random(f"{ctx.seed}:C05")
     ctx.rule = ("behaviours of BrownianDump replayed with every earlier query re-asked after every later one "
                 "(torch.equal on W, U, A); case = (configuration, history, shape, Levy mode); non-trivial = the "
